@@ -49,10 +49,11 @@ func genC01(g gen.G) C01Case {
 		o.Edits = 0
 	}
 	o.Schema.DepBoost = g.Chance(50)
+	o.Cfg.CallHeavy = g.Chance(30)
 	c := C01Case{World: g.World(o)}
 	if g.Chance(12) {
 		// value-centred world: deeply nested values of rich types
-		c.World = g.ValueWorld(gen.CfgOpts{Typed: g.Bool(), Layout: true, HalfTyped: 6, Violations: 5})
+		c.World = g.ValueWorld(gen.CfgOpts{Typed: g.Bool(), Layout: true, HalfTyped: 6, Violations: 5, CallHeavy: g.Bool()})
 	}
 	if g.Chance(30) {
 		p := g.Int(0, len(c.World.Paths)-1)
